@@ -33,6 +33,22 @@ def anon_forms():
           ("A3named", "A3()(x1 <== a, x2 <== b, x3 <== c)"), ("A3perm", "A3()(x3 <== c, x1 <== a, x2 <== b)"),
           ("A2wrong", "A2()(x1 <== a, zz <== b)"), ("A3missing", "A3()(x1 <== a, x2 <== b)"),
           ("A2dup", "A2()(x1 <== a, x1 <== b)"), ("A2extra", "A2()(x1 <== a, x2 <== b, x3 <== c)")]
+    # named inputs in every order for arities 2 and 3, with DIFFERENT operators on the
+    # permuted positions (the operator belongs to the name, not to the position)
+    import itertools
+    ops2 = [("<--", "<=="), ("<==", "<--"), ("=", "<--")]
+    for perm in itertools.permutations([("x1", "a"), ("x2", "b")]):
+        for oi, ops in enumerate(ops2):
+            byname = dict(zip(("x1", "x2"), ops))
+            F.append(("A2p%s_o%d" % ("".join(n[1] for n, _ in perm), oi),
+                      "A2()(%s)" % ", ".join("%s %s %s" % (n, byname[n], v) for n, v in perm)))
+    ops3 = [("<--", "<==", "<=="), ("<==", "<--", "="), ("<==", "<==", "<--")]
+    for perm in itertools.permutations([("x1", "a"), ("x2", "b"), ("x3", "c")]):
+        for oi, ops in enumerate(ops3):
+            byname = dict(zip(("x1", "x2", "x3"), ops))
+            F.append(("A3p%s_o%d" % ("".join(n[1] for n, _ in perm), oi),
+                      "A3()(%s)" % ", ".join("%s %s %s" % (n, byname[n], v) for n, v in perm)))
+    F += [("B22perm_ops", "B22()(x2 <-- b, x1 <== a)"), ("B23perm_ops", "B23()(x2 <== b, x1 <-- a)")]
     # several outputs (tuple valued), none
     F += [("B00", "B00()()"), ("B10", "B10()(a)"), ("B12", "B12()(a)"), ("B22", "B22()(a, b)"),
           ("B22named", "B22()(x2 <== b, x1 <== a)"), ("B23", "B23()(a, b)")]
